@@ -83,6 +83,9 @@ func lcg(n int) []byte {
 	return b
 }
 
+// content codings an origin may already have applied (besides gzip)
+var c15Codings = map[string]string{"pre-br": "br", "pre-zstd": "zstd", "pre-br+gzip": "br, gzip", "pre-deflate": "deflate", "pre-custom": "x-custom", "pre-GZIP": "GZIP"}
+
 func c15Payload(kind string, n int) []byte {
 	switch kind {
 	case "zeros":
@@ -101,7 +104,7 @@ type c15Case struct {
 	AE       string // "-" = header absent
 	CType    string
 	Size     int
-	Payload  string // zeros, text, random, pre-gzipped
+	Payload  string // zeros, text, random, pre-gzipped, pre-<coding> (see c15Codings)
 	Status   int    // 0 = implicit
 	Declare  bool
 	Method   string
@@ -123,11 +126,16 @@ func (c c15Case) origin() (*hprog, []byte, bool) {
 	if c.CType != "" {
 		p.Header = append(p.Header, wire.HeaderLine{"Content-Type", c.CType})
 	}
-	pre := c.Payload == "pre-gzipped"
-	if pre {
+	pre := strings.HasPrefix(c.Payload, "pre-")
+	if c.Payload == "pre-gzipped" {
 		plain = c15Payload("text", c.Size)
 		wireBody = gzipBytes(plain)
 		p.Header = append(p.Header, wire.HeaderLine{"Content-Encoding", "gzip"})
+	} else if pre {
+		// a coding the proxy cannot undo: the (compressible) bytes are opaque and must arrive as sent
+		plain = c15Payload("text", c.Size)
+		wireBody = plain
+		p.Header = append(p.Header, wire.HeaderLine{"Content-Encoding", c15Codings[c.Payload]})
 	}
 	w := c.Writes
 	if w < 1 {
@@ -203,6 +211,18 @@ func c15Judge(c c15Case, with, without wire.Response, plain []byte, pre bool) (s
 		return "C15/interim-response-lost", fmt.Sprintf("the origin's %d interim response(s) arrive as %d", len(without.Interim), len(with.Interim))
 	}
 	bodyExpected := c.Method != "HEAD" && wantStatus != 204 && wantStatus != 304
+	if pre && c.Payload != "pre-gzipped" {
+		// already encoded with a coding this check does not undo: must be delivered byte-identical
+		if with.Get("Content-Encoding") != without.Get("Content-Encoding") || !bytes.Equal(with.Body, without.Body) {
+			return "C15/compressed-although-already-encoded", fmt.Sprintf("the origin's response carried Content-Encoding: %s; the client receives Content-Encoding %q and %d bytes where the origin sent %d", c15Codings[c.Payload], with.Get("Content-Encoding"), len(with.Body), len(without.Body))
+		}
+		a, b := wire.EndToEnd(without.Header, "date"), wire.EndToEnd(with.Header, "date")
+		if fmt.Sprint(a) != fmt.Sprint(b) {
+			add, del := diff(a, b)
+			return "C15/passthrough-headers-changed", fmt.Sprintf("response not compressed but headers added %v missing %v", add, del)
+		}
+		return "", ""
+	}
 	// what the origin's entity is after undoing the origin's own coding
 	refDecoded, _ := c15Decode(without)
 	got, derr := c15Decode(with)
@@ -265,7 +285,7 @@ func c15Cases(th bool) []c15Case {
 	// core product at one plugin configuration
 	min := 64
 	sizes := []int{0, min - 1, min, min + 1, 4 * min, 100 * 1024}
-	payloads := []string{"zeros", "text", "random", "pre-gzipped"}
+	payloads := []string{"zeros", "text", "random", "pre-gzipped", "pre-br", "pre-br+gzip", "pre-zstd", "pre-deflate", "pre-custom", "pre-GZIP"}
 	statuses := []int{0, 200, 201, 404, 204, 304}
 	for _, ae := range c15AEs {
 		for _, ct := range c15Types {
@@ -277,6 +297,12 @@ func c15Cases(th bool) []c15Case {
 						}
 						if !th && (pl == "zeros" || (st == 201) || (sz == 4*min)) {
 							continue
+						}
+						if c15Codings[pl] != "" {
+							// foreign codings: where compression could apply at all, fewer shapes in the quick tier
+							if sz < min || (!th && (pl == "pre-zstd" || pl == "pre-deflate" || pl == "pre-GZIP" || st == 404 || ct == "" || !aeOffersGzip(ae))) {
+								continue
+							}
 						}
 						for _, decl := range []bool{false, true} {
 							for _, m := range []string{"GET", "HEAD"} {
